@@ -328,6 +328,8 @@ namespace T
    template< typename A > using w_rep_opt4 = p::rep_opt< 4, A >;
    template< typename A, typename B > using w_rep2_2 = p::rep< 2, A, B >;
    template< typename A, typename B > using w_rep_min2_2 = p::rep_min< 2, A, B >;
+   template< typename A, typename B > using w_rep_min1_2 = p::rep_min< 1, A, B >;
+   template< typename A, typename B > using w_rep_min0_2 = p::rep_min< 0, A, B >;
    template< typename A, typename B > using w_rep_opt2_2 = p::rep_opt< 2, A, B >;
    template< typename A, typename B > using w_rmm12_2 = p::rep_min_max< 1, 2, A, B >;
    template< typename A > using w_rmm00 = p::rep_min_max< 0, 0, A >;
@@ -521,6 +523,8 @@ namespace T
    U1( REP_MIN3, G_REP, w_rep_min3 ) \
    U1( REP_MIN4, G_REP, w_rep_min4 ) \
    B2( REP_MIN2_2, G_REP, w_rep_min2_2 ) \
+   B2( REP_MIN1_2, G_REP, w_rep_min1_2 ) \
+   B2( REP_MIN0_2, G_REP, w_rep_min0_2 ) \
    U1( REP_MAX0, G_REP, w_rep_max0 ) \
    U1( REP_MAX1, G_REP, w_rep_max1 ) \
    U1( REP_MAX2, G_REP, w_rep_max2 ) \
@@ -1728,6 +1732,11 @@ namespace T
    using mon_errA = typename p::must_if< ErrA, mon, false >::template control< Rule >;
    template< typename Rule >
    using mon_errB = typename p::must_if< ErrB, mon, false >::template control< Rule >;
+   // the same tables over the plain normal control (its hooks are noexcept, unlike the monitor's)
+   template< typename Rule >
+   using plain_errA = typename p::must_if< ErrA, p::normal, false >::template control< Rule >;
+   template< typename Rule >
+   using plain_errB = typename p::must_if< ErrB, p::normal, false >::template control< Rule >;
    inline int g_errors = 0;  // 0 none, 1 ErrA, 2 ErrB (tells the reference which must_if table is in effect)
    inline bool raises_on_failure( int I )
    {
